@@ -46,7 +46,7 @@ from engines import attemptfacts as af
 from engines import pyfacts as pf
 from engines import sqlfront as sf
 from engines import sqlrules as sr
-from engines.common import AnalysisError, Ctx
+from engines.common import AnalysisError, AnchorRemoved, Ctx
 from engines.sqlast import N, parse_expr, text
 
 META = dict(
@@ -100,15 +100,23 @@ def billed_nothing(row: Dict[str, Any]) -> bool:
 
 
 def check_writer(ctx: Ctx, body: List[N], w: Writer, special: List[str], trig_file: str, zeroing: Dict[str, List[str]],
-                 erased: Optional[Dict[str, Set[str]]] = None) -> int:
+                 erased: Optional[Dict[str, Set[str]]] = None, declines: Optional[List[str]] = None) -> int:
     """`zeroing`: reason literals for which the trigger itself erases a timestamp (syntactic).  `erased` collects, per reported reason
-    text, the timestamp columns some transition of this writer turns from a value into NULL (writer expression + trigger together)."""
+    text, the timestamp columns some transition of this writer turns from a value into NULL (writer expression + trigger together).
+    `declines` collects the clauses that cannot be decided because a call chain hands over a value whose NULL class / reason text the
+    analysis could not establish: a failure that shows only under SOME assumption about such a value is not evidence."""
     fails: Dict[str, Tuple] = {}
     at_seen = False
     settled: Set[str] = set()      # clauses whose witness starts from a state real histories produce (reason set iff end set)
     count = 0
+    tags_seen: Dict[int, Set[Tuple]] = {}                              # variant -> every assumption pattern enumerated
+    ufails: Dict[str, Dict[int, Dict[Tuple, Tuple]]] = {}              # clause -> variant -> pattern -> witness
+    cur: List[Any] = [None, None]                                      # (variant, tag) of the transition being judged
 
     def record(clause: str, label: str, old: Dict[str, Any], new: Dict[str, Any], out: Dict[str, Any]) -> None:
+        if cur[1] is not None:
+            ufails.setdefault(clause, {}).setdefault(cur[0], {}).setdefault(cur[1], (label, old, new, out))
+            return
         # keep the first witness, but prefer one whose OLD row has (reason IS NULL) == (end_time IS NULL)
         good = (old['reason'] is None) == (old['end_time'] is None)
         if clause not in fails or good:
@@ -116,13 +124,16 @@ def check_writer(ctx: Ctx, body: List[N], w: Writer, special: List[str], trig_fi
         if good:
             settled.add(clause)
 
-    for label, old, new, out in af.transitions(body, w, special):
+    for vi, label, old, new, out, tag in af.transitions_tagged(body, w, special):
         count += 1
+        cur[0], cur[1] = vi, tag
+        if tag is not None:
+            tags_seen.setdefault(vi, set()).add(tag)
         oreason = old['reason']
         rep_reason = new['reason']
         # the report marks an activation timeout (which bills nothing): the property's own reason text, or one the trigger singles out by erasing a timestamp (R4 then applies to it)
         exempt = rep_reason == AT or rep_reason in zeroing
-        if erased is not None and isinstance(rep_reason, str):
+        if erased is not None and isinstance(rep_reason, str) and tag is None:
             for c in TIME_COLS:
                 if old[c] is not None and out[c] is None:
                     erased.setdefault(rep_reason, set()).add(c)
@@ -162,7 +173,28 @@ def check_writer(ctx: Ctx, body: List[N], w: Writer, special: List[str], trig_fi
         'g': f'a report that marks an activation timeout (reason \'{AT}\', accepted as the end reason of an attempt that had none) leaves billed time max(rollup - start, 0) > 0 on the stored row: '
              'an activation timeout bills nothing',
     }
+    # failures seen only on chains with unestablished values: evidence iff they show under every assumption about those values
+    undecided: Dict[str, str] = {}
+    for clause, per in ufails.items():
+        if clause in fails:
+            continue
+        for vi, pats in per.items():
+            if set(pats) == tags_seen.get(vi, set()):
+                fails[clause] = next(iter(pats.values()))
+                break
+        else:
+            vi, pats = next(iter(per.items()))
+            pat = next(iter(pats))
+            what = ', '.join(f'{s_} {"= " + repr(v) if s_ == "<reason>" else ("IS NULL" if v else "IS NOT NULL")}' for s_, v in pat)
+            undecided[clause] = (f'{w.wid}: clause ({clause}) fails only if {what} on call chain {w.variants[vi][0]}, and the analysis could not establish '
+                                 f'what that chain passes there (parameter classes {w.variants[vi][1]})')
+    if declines is not None:
+        declines += [undecided[c] for c in sorted(undecided)]
+    elif undecided:
+        raise AnalysisError(undecided[sorted(undecided)[0]])
     for clause, msg in texts.items():
+        if clause in undecided:
+            continue
         if clause == 'f' and clause not in fails:
             continue        # only meaningful for writers that can produce the constant; no instance otherwise
         if clause == 'g' and not at_seen:
@@ -535,28 +567,21 @@ def r0_syntactic(ctx: Ctx, r: sf.Routine) -> None:
 
 
 def r2_billed_expr(ctx: Ctx, prog: sf.SqlProgram) -> None:
-    def f(prefix: str) -> str:
-        return text(parse_expr(f'GREATEST(COALESCE({prefix}rollup_time - {prefix}start_time, 0), 0)'))
-    for name in ('attempts_after_update', 'attempt_resources_after_insert'):
+    """The factor each billing trigger multiplies the quantity with (found by its role in the usage value, whatever the local is called)
+    denotes f(NEW) - f(OLD) / f(current attempt row) with f = max(rollup - start, 0), 0 for a NULL: compared as a value per ordering class
+    (rules/c02.py duration_verdict, engines/attemptfacts.compare_value_expr), so a negative or NULL duration is never billed."""
+    from rules import c02 as billing
+    for name, kind in (('attempts_after_update', 'update'), ('attempt_resources_after_insert', 'insert')):
         r = prog.routine(name)
-        env = sr.inline_sets(r.ast.body, sr.declared_vars(r.ast))
-        found = None
-        for st in sf.all_statements(r.ast.body):
-            if st.kind == 'set':
-                for t, v in st.assigns:
-                    if sr.is_var(t) and t.parts[0].lower() == 'msec_diff_rollup':
-                        found = (st, v)
-        ctx.need(found is not None, f'{name}: msec_diff_rollup not found')
-        st, v = found
-        v = sr.inline_expr(v, env)
-        if name == 'attempts_after_update':
-            want = f'({f("NEW.")} - {f("OLD.")})'
-            ok = text(v) == want
+        tr = billing.TriggerReader(ctx, prog, r, kind)
+        v = billing.duration_verdict(tr, billing.collect_durations(tr))
+        if v[0] == 'undecided':
+            raise AnalysisError(v[1])
+        cons = f'{r.file}::{name}::billed duration'
+        if v[0] == 'bad':
+            ctx.bad('R2', cons, v[1] + ': a negative, NULL or foreign duration would be billed', r.file, r.line_of(v[2]))
         else:
-            # f of the current attempt row read from `attempts`
-            ok = text(v) in (f('cur_'), f('')) or (text(v).startswith('GREATEST(COALESCE((') and 'rollup_time' in text(v) and 'start_time' in text(v) and text(v).endswith(', 0), 0)'))
-        ctx.check(ok, 'R2', f'{r.file}::{name}::msec_diff_rollup', f'billed duration is computed as `{text(v)}`; expected GREATEST(COALESCE(rollup - start, 0), 0) '
-                  '(difference of NEW and OLD in the update trigger): a negative or NULL duration would be billed', r.file, r.line_of(st))
+            ctx.ok('R2', cons, v[1])
 
 
 def reason_literals(body: List[N]) -> List[str]:
@@ -606,8 +631,9 @@ def run(ctx: Ctx) -> None:
         special += [l for l in w.reason_lits if l not in special]      # literals a writer's own SET expressions test the reason against
     total = 0
     erased: Dict[str, Set[str]] = {}
+    declines: List[str] = []
     for w in ws:
-        total += check_writer(ctx, body, w, special, trig.file, zeroing, erased)
+        total += check_writer(ctx, body, w, special, trig.file, zeroing, erased, declines)
     # reasons the code singles out (a literal in the trigger or in a writer expression) AND for which a timestamp is actually erased on some transition:
     # whatever form the erasure takes (IF statement, IF()/CASE expression, in the trigger or in the writer), R4 applies to them
     erasing = {lit: list(cols) for lit, cols in zeroing.items()}
@@ -621,5 +647,13 @@ def run(ctx: Ctx) -> None:
                                                                                    for l, c, f, r in w.variants]} for w in ws]
     ctx.extra_cov['reason_literals_in_trigger'] = special
     ctx.extra_cov['timestamp_erasing_reasons'] = erasing
-    r2_billed_expr(ctx, prog)
-    r4_zeroing_reason_precondition(ctx, prog, trig, ws, erasing, special)
+    # a violation established by one group of rules must not be hidden by an unrecognised shape in another: declines are raised last
+    for grp in (lambda: r2_billed_expr(ctx, prog), lambda: r4_zeroing_reason_precondition(ctx, prog, trig, ws, erasing, special)):
+        try:
+            grp()
+        except AnchorRemoved:
+            raise
+        except AnalysisError as e:
+            declines.append(str(e))
+    if declines:
+        raise AnalysisError(declines[0])
